@@ -52,8 +52,30 @@ type StructV struct{ F []Value }
 type ArrayV struct{ E []Value }
 
 type SliceV struct {
-	Arr           *Obj // holds *ArrayV
+	Arr           *Obj  // holds the backing *ArrayV (at path Base inside the object)
+	Base          []int // path to the backing array inside Arr (nil: the object itself)
 	Off, Len, Cap int
+}
+
+// backing returns the backing array of a non-nil slice.
+func (s *SliceV) backing() *ArrayV {
+	v := s.Arr.V
+	for _, i := range s.Base {
+		switch c := v.(type) {
+		case *StructV:
+			v = c.F[i]
+		case *ArrayV:
+			v = c.E[i]
+		}
+	}
+	return v.(*ArrayV)
+}
+
+func (s *SliceV) elemPath(i int) []int {
+	p := make([]int, len(s.Base)+1)
+	copy(p, s.Base)
+	p[len(s.Base)] = i
+	return p
 }
 
 type MapEntry struct {
